@@ -1,6 +1,7 @@
 import Driver.Util
 import Driver.Misc.Bins
 import Driver.Misc.MemBal
+import Driver.Misc.Xducer
 /-! package `Misc` (see CONVENTIONS.md): register components in `step`.
 `cfg` lines this package cares about may be matched here too (they must answer "ok");
 every package sees every `cfg` line. -/
@@ -15,6 +16,7 @@ structure St where
 def step (st : St) (toks : List String) : Option (St × String) :=
   match toks with
   | "bins" :: args => some (st, Bins.run st.debug args)
+  | "xducer" :: args => some (st, Xducer.run args)
   | "membal" :: args =>
     let (m, o) := MemBal.run st.debug st.membal args
     some ({ st with membal := m }, o)
